@@ -3,3 +3,4 @@ From Coq Require Import PrimFloat Uint63.
 
 Definition gen_radius (k : float) : float := (PrimFloat.mul (PrimFloat.sqrt (of_uint63 2%uint63)) k).
 Definition gen_radius_known : bool := true.
+Definition gen_ball_query_exact : bool := true.   (* options: r, workers *)
